@@ -78,7 +78,11 @@ func (c *contract) methods() []string {
 type opSpec struct {
 	special string // "", "blocks", "time", "fund"
 
-	nonceOffset int  // txs of the same sender that precede this one in the block
+	forceAmple   bool          // no hostile gas budget (used for the members of a multi-deployment block)
+	codeHash     *common.Hash  // WASM deployment: hash of the deployed code
+	presetPrefix []*prefixItem // the block prefix is given (multi-deployment block) instead of drawn
+	shape        string        // label of a preset block shape
+	nonceOffset  int           // txs of the same sender that precede this one in the block
 	pinNonce    bool // the payload depends on the tx nonce (a deployment that names its own future address)
 	selfArg     bool // an address argument is the target contract itself
 	n       int
@@ -109,6 +113,9 @@ type prog struct {
 	contracts []*contract
 	senders   []*sim.Actor
 	last      *contract
+
+	codeSeq    int                  // distinct WASM codes made so far (see uniqueCode)
+	knownCodes map[common.Hash]bool // code hashes already stored by a successful deployment
 
 	ctxAddrs   []common.Address // addresses with a role in the step being generated: the target contract itself (for a deployment: its future address)
 	selfPicked bool             // an address argument of the step being generated is the target contract itself
@@ -526,6 +533,69 @@ func (p *prog) deployEmbedded(e *embType) *opSpec {
 		post: postOwnerIs(sender.Addr), pinNonce: p.selfPicked, selfArg: p.selfPicked}
 }
 
+// uniqueCode returns a valid WASM module that differs from every other code of this program only by a trailing custom
+// section (section id 0, ignored by the runtime): a new, not yet stored code with the behaviour of the bundled binary.
+func (p *prog) uniqueCode(base []byte) []byte {
+	p.codeSeq++
+	name := fmt.Sprintf("c15-%d", p.codeSeq)
+	payload := []byte{byte(p.codeSeq), byte(p.codeSeq >> 8), 0xC1, 0x5}
+	section := append([]byte{0x0, byte(1 + len(name) + len(payload)), byte(len(name))}, name...)
+	section = append(section, payload...)
+	return append(append([]byte{}, base...), section...)
+}
+
+// deployUnique: a plain, well-formed deployment of a new distinct code (bundled binary without constructor arguments +
+// unique custom section) with an ample gas budget.
+func (p *prog) deployUnique(sender *sim.Actor, nonceOffset int) *opSpec {
+	b := wasmBins[[]int{0, 0, 0, 0, 2, 4}[p.draw("uniqueBase", 6)]] // inc_func mostly, erc20, test-cases
+	code := p.uniqueCode(b.code)
+	h := common.Hash(crypto.Hash(code))
+	att := attachments.CreateDeployContractAttachment(common.Hash{}, code, []byte{byte(p.codeSeq)})
+	payload, _ := att.ToBytes()
+	return &opSpec{sender: sender, typ: types.DeployContractTx, payload: payload, amount: big.NewInt(0), kind: "wasm:" + b.name, op: "deploy", method: "deploy", argClass: "typed+unique",
+		smart: true, created: &contract{kind: "wasm:" + b.name, bin: b, owner: sender}, forceAmple: true, codeHash: &h, nonceOffset: nonceOffset}
+}
+
+// multiDeploy builds a block of 2-12 deployments of DIFFERENT new codes: the tx under test (last) and a prefix made of the
+// same sender's earlier deployments (consecutive nonces) and deployments of senders whose nonce lies below. All new codes
+// of a block are flushed to the state tree together, so its root must not depend on the order they were met in.
+func (p *prog) multiDeploy() *opSpec {
+	s := p.senders[p.draw("multiSender", len(p.senders))]
+	// prefer the sender with the highest nonce half of the time: more other senders qualify
+	if p.chance("multiTopSender", 50) {
+		for _, a := range p.senders {
+			if p.nextNonce(a) > p.nextNonce(s) {
+				s = a
+			}
+		}
+	}
+	want := 1 + p.draw("multiCodes", 11) // prefix length 1..11
+	top := p.nextNonce(s)
+	var items []*prefixItem
+	used := map[uint32]bool{}
+	for _, a := range p.senders {
+		if len(items) >= want || a.Idx == s.Idx {
+			continue
+		}
+		if n := p.nextNonce(a); n < top && !used[n] && p.chance("multiOtherSender", 70) {
+			used[n] = true
+			pop := p.deployUnique(a, 0)
+			tx, _ := p.build(pop)
+			items = append(items, &prefixItem{tx: tx, op: pop, shape: "new-code-deploy"})
+		}
+	}
+	own := 0
+	for len(items) < want {
+		pop := p.deployUnique(s, own)
+		own++
+		tx, _ := p.build(pop)
+		items = append(items, &prefixItem{tx: tx, op: pop, shape: "new-code-deploy"})
+	}
+	op := p.deployUnique(s, own)
+	op.presetPrefix, op.shape = items, "multi-deploy"
+	return op
+}
+
 func (p *prog) deployWasm(b *wasmBin) *opSpec {
 	sender := p.anySender("deployer")
 	c := &contract{kind: "wasm:" + b.name, bin: b, owner: sender}
@@ -555,6 +625,9 @@ func (p *prog) deployWasm(b *wasmBin) *opSpec {
 	code := b.code
 	hash := common.Hash{}
 	switch rapid.IntRange(0, 19).Draw(p.t, "wasmCodeClass") {
+	case 14, 15, 16:
+		code = p.uniqueCode(b.code) // a new distinct code with the same behaviour
+		cls += "+unique"
 	case 17:
 		code = append([]byte{}, b.code[:len(b.code)/2]...) // truncated module
 		cls += "+truncated"
@@ -568,7 +641,8 @@ func (p *prog) deployWasm(b *wasmBin) *opSpec {
 	att := attachments.CreateDeployContractAttachment(hash, code, nonce, args...)
 	payload, _ := att.ToBytes()
 	amount := p.payAmount("wasmDeployPay", sender, big.NewInt(0), big.NewInt(0), sim.Dna(5))
-	return &opSpec{sender: sender, typ: types.DeployContractTx, payload: payload, amount: amount, kind: c.kind, op: "deploy", method: "deploy", argClass: cls, smart: cls == "typed", created: c}
+	h := common.Hash(crypto.Hash(code))
+	return &opSpec{sender: sender, typ: types.DeployContractTx, payload: payload, amount: amount, kind: c.kind, op: "deploy", method: "deploy", argClass: cls, smart: strings.HasPrefix(cls, "typed") && !strings.Contains(cls, "+t") && !strings.Contains(cls, "+e"), created: c, codeHash: &h}
 }
 
 func (p *prog) deploy() *opSpec {
@@ -1201,6 +1275,9 @@ func (p *prog) build(op *opSpec) (*types.Transaction, string) {
 	budget := ample
 	var minus *big.Int
 	k := rapid.IntRange(0, 21).Draw(p.t, "gasClass") - 6
+	if op.forceAmple {
+		k = 0
+	}
 	if p.calm && k >= 9 && !p.chance("gasOddAnyway", 30) {
 		k = 0
 	}
